@@ -54,10 +54,104 @@ func TestVerifProcRun(t *testing.T) {
 	}
 	vWithSupervisor(t, func(root context.Context) {
 		o.emit(vRunRestart(t, root, w, 900000))
+		o.emit(vRunPreviousSet(t, root, w, 900001))
 		for id := 0; id < n && atomic.LoadInt32(&vRunWedges) < 2; id++ {
 			o.emit(vRunOne(t, root, w, id))
 		}
 	})
+}
+
+// the real Run loop learns set 0 (seven guardians, threshold 5) and then set 1 (four guardians, threshold 3) over setC; a peer then sends
+// VAAs that NAME set 0 and carry three / four valid signatures of set 0: for a peer / backfill VAA the set is the node's current set, and
+// these are not even complete for set 0: nothing may be stored.  A valid VAA of set 1 behind them on the same queue is the barrier.
+func vRunPreviousSet(t *testing.T, root context.Context, w *vWorld, id int) *vRunRow {
+	row := &vRunRow{K: "run", ID: id, Mon: []string{}, Shape: "n=7 -> n=4 rotation seen by Run, then inbound VAAs naming the previous set"}
+	dir, err := os.MkdirTemp(os.Getenv("VERIF_TMP"), "procrun")
+	if err != nil {
+		t.Fatal(err)
+	}
+	defer os.RemoveAll(dir)
+	d, err := db.Open(dir)
+	if err != nil {
+		t.Fatal(err)
+	}
+	defer d.Close()
+	setC := make(chan *common.GuardianSet)
+	signedInC := make(chan *gossipv1.SignedVAAWithQuorum, 50)
+	p := NewProcessor(root, d, make(chan *common.MessagePublication), setC, make(chan []byte, 8192), make(chan *gossipv1.SignedObservation, 50), make(chan *gossipv1.ObservationRequest, 8192),
+		make(chan *vaa.VAA), signedInC, &ecdsasigner.ECDSAPrivateKey{Value: w.own}, common.NewGuardianSetState(nil), reporter.EventListener(zap.NewNop()), nil, w.govCh, w.govAddr)
+	ctx, cancel := context.WithCancel(root)
+	defer cancel()
+	done := make(chan string, 1)
+	go func() {
+		defer func() {
+			if x := recover(); x != nil {
+				done <- fmt.Sprint(x)
+				return
+			}
+			done <- ""
+		}()
+		p.Run(ctx)
+	}()
+	mA := []int{-1, 10, 11, 12, 13, 14, 15}
+	mB := []int{-1, 10, 20, 21}
+	gA, gB := w.set(mA, 0), w.set(mB, 1)
+	send := func(f func()) bool {
+		c := make(chan struct{})
+		go func() { f(); close(c) }()
+		select {
+		case <-c:
+			row.Fed++
+			return true
+		case msg := <-done:
+			row.Mon = append(row.Mon, "processor panicked: "+msg+" (Run loop)")
+			return false
+		case <-time.After(20 * time.Second):
+			row.Mon = append(row.Mon, "harness: Run loop did not accept an input within 20 s")
+			return false
+		}
+	}
+	if !send(func() { setC <- gA }) || !send(func() { setC <- gB }) {
+		return row
+	}
+	old := []*common.MessagePublication{w.msg(0), w.msg(0), w.msg(0)}
+	for i, pos := range [][]int{{1, 2, 3}, {2, 3, 4, 5}, {0, 1, 2}} {
+		b := w.signedVAA(old[i], gA, mA, pos)
+		if !send(func() { signedInC <- &gossipv1.SignedVAAWithQuorum{Vaa: b} }) {
+			return row
+		}
+	}
+	mark := w.msg(0)
+	mb := w.signedVAA(mark, gB, mB, []int{0, 1, 2})
+	if !send(func() { signedInC <- &gossipv1.SignedVAAWithQuorum{Vaa: mb} }) {
+		return row
+	}
+	idOf := func(k *common.MessagePublication) vaa.VAAID {
+		return *db.VaaIDFromVAA(&vaa.VAA{EmitterChain: k.EmitterChain, EmitterAddress: k.EmitterAddress, TargetChain: k.TargetChain, Sequence: k.Sequence})
+	}
+	seen := false
+	for i := 0; i < 500 && !seen; i++ {
+		if _, err := d.GetSignedVAABytes(idOf(mark)); err == nil {
+			seen = true
+		} else {
+			time.Sleep(20 * time.Millisecond)
+		}
+	}
+	if !seen {
+		row.Mon = append(row.Mon, "harness: the valid VAA of the current set sent behind the others was not stored within 10 s")
+		return row
+	}
+	row.Stored++
+	for i, k := range old {
+		if vb, err := d.GetSignedVAABytes(idOf(k)); err == nil {
+			n := 0
+			if v, ok := vparse(vb); ok {
+				n = len(v.Signatures)
+			}
+			row.Mon = append(row.Mon, fmt.Sprintf("C01: inbound VAA stored although it does not verify against the current set: it names the previous set 0 (seven guardians, threshold 5) and carries %d signatures of that set, the node's current set is set 1 (four guardians); sent %d-th after the rotation", n, i+1))
+		}
+	}
+	return row
 }
 
 // the supervisor re-runs the SAME runnable (p.Run of the same Processor object) after a failure: what the processor has signed and
